@@ -140,6 +140,24 @@ let handle (toks: string list) : string =
       id ^ " " ^ String.concat "," (List.map (fun c -> string_of_int (List.length c)) cs) ^ " " ^ string_of_int (List.length d) ^ " true " ^ hex_of_bytes (sequence cs)
   | "dosbin" :: id :: addr :: hex :: [] -> id ^ " " ^ show_outcome (dos_pack_bin (hexarg hex) (n_of_int (int_of_string addr)))
   | "dostok" :: id :: hex :: [] -> id ^ " " ^ show_outcome (dos_pack_tok (hexarg hex))
+  | "wozchunk" :: id :: ptr :: hex :: [] ->
+      let ((next, cid), c) = woz_next_chunk (n_of_int (int_of_string ptr)) (hexarg hex) in
+      id ^ " " ^ string_of_int (int_of_n next) ^ " " ^ string_of_int (int_of_n cid) ^ " " ^
+        (match c with Some (_, l) -> string_of_int (int_of_n l) | None -> "none")
+  | "imdparse" :: id :: hex :: [] ->
+      (* the loop of Imd::from_bytes: parse track records until the data is used up; at least one track is required *)
+      let rec go (b: n list) (count:int) : string =
+        if b = [] then (if count > 0 then "ok" else "err")
+        else match imd_parse_track b with
+          | ROk (used, _) -> let u = int_of_n used in
+                             let rec drop k l = if k = 0 then l else (match l with [] -> [] | _ :: t -> drop (k-1) t) in
+                             go (drop u b) (count+1)
+          | RErr _ -> "err"
+          | RPanic _ -> "panic"
+          | RFuel -> "fuel" in
+      id ^ " " ^ go (hexarg hex) 0
+  | "dosunbin" :: id :: hex :: [] ->
+      id ^ " " ^ (match dos_unpack_bin (hexarg hex) with ROk (_, d) -> "ok:" ^ hex_of_bytes d | RErr _ -> "err" | RPanic _ -> "panic" | RFuel -> "fuel")
   | "crc32" :: id :: hex :: [] -> id ^ " " ^ string_of_int (int_of_n (crc32 N0 (hexarg hex)))
   | "crc16" :: id :: seed :: hex :: [] -> id ^ " " ^ string_of_int (int_of_n (crc16 (n_of_int (int_of_string seed)) (hexarg hex)))
   | "imdtrk" :: id :: _kind :: secsize :: nsec :: rest ->
